@@ -11,9 +11,18 @@ out = ['# Sensitivity results', '',
        'the patch applies to /repo HEAD, `tools/baseline_check.py` reports missing=0 on the patched tree, the',
        'demonstration exits 0 on the clean tree and non-zero on the patched tree.', '',
        '| change | property | caught by (quick) | what it is / what it needs |', '|---|---|---|---|']
-for p in sorted(glob.glob(os.path.join(HERE, 'seeded', '*', 'meta.json'))):
-  d = json.load(open(p))
-  sid = os.path.basename(os.path.dirname(p))
+metas = [(os.path.basename(os.path.dirname(p)), json.load(open(p)))
+         for p in sorted(glob.glob(os.path.join(HERE, 'seeded', '*', 'meta.json')))]
+n_all = len(metas)
+n_obsolete = sum(1 for _, d in metas if d.get('obsolete'))
+n_missed_first = sum(1 for _, d in metas if 'MISSED' in (d.get('verifier_note') or ''))
+n_own = sum(1 for sid, d in metas if d.get('property', sid[:3]) in d.get('caught_by_quick_checks', []))
+out[-2:-2] = ['%d changes in %d rounds; %d were at first missed by the check of their own property (each such miss led to a '
+              'generator or oracle extension recorded in the note and in DESIGN.md 10.1); with the current machinery %d are caught by '
+              'the check of their own property, %d only by a neighbouring property, %d became obsolete through a later fix.' % (
+                  n_all, max(int(d.get('round', 1)) for _, d in metas), n_missed_first, n_own,
+                  n_all - n_own - n_obsolete, n_obsolete), '']
+for sid, d in metas:
   out.append('| seeded/%s | %s | %s | %s |' % (sid, d.get('property', sid[:3]), ', '.join(d.get('caught_by_quick_checks', [])) or 'MISSED',
                                                (d.get('verifier_note') or d.get('summary', '')).replace('|', '/').replace('\n', ' ')))
 out += ['', '## Hand-written mutants (mutants/*.patch)', '',
